@@ -2,7 +2,7 @@
    which signal is sent, when, to whom, how often, with which callback arguments). *)
 From Coq Require Import ZArith List Bool.
 From BV Require Import Lib.Cases Model.LaxSem Model.Restart Model.Pool
-     Proofs.PoolJobs Proofs.PoolInv Proofs.PoolScan.
+     Proofs.PoolJobs Proofs.PoolInv Proofs.PoolScan Proofs.PoolSoft.
 From BV Require Gen.G_pool_shape.
 Import ListNotations.
 Open Scope Z_scope.
@@ -43,6 +43,16 @@ Theorem C06_mark_survives : forall s j,
     memZ j (filter (fun j0 => memZ j0 (snapshot s)) (dirty s)) = true.
 Proof. exact scan_keeps_dirty. Qed.
 Print Assumptions C06_mark_survives.
+
+(* ALL HISTORIES: whatever sequence of submissions, worker messages, exits, supervision
+   passes, whole scans, scans split at any point with other events in between, clock
+   advances and user calls the pool goes through, every job has received at most one
+   soft-timeout callback (the callback and SIGUSR1 are issued by the same branch, so also
+   at most one soft signal on its behalf) *)
+Theorem C06_at_most_once_in_every_history : forall c tr j x,
+    get_job (run c tr) j = Some x -> (soft_count x <= 1)%nat.
+Proof. exact soft_at_most_once. Qed.
+Print Assumptions C06_at_most_once_in_every_history.
 
 (* the only record change of a step that is not a hard timeout: the timeout callback is
    told soft=True and the job's soft limit *)
